@@ -21,4 +21,24 @@ func init() {
 			ruleDET4(c)
 		},
 	})
+
+	register(&PropSpec{
+		ID:    "C18",
+		Level: "proof",
+		Explanation: "All mutable state lives in the instances: proved as an effects property of the template code. The three templates are instantiated abstractly (both emit_bounds variants, every _act branch), compiled to SSA, and a may-alias taint analysis shows that nothing derived from a package-level variable is ever written through, appended to, copied into, cleared, sent on or handed to code outside the templates; package-level variables are initialised by constant literals only. " +
+			"Thorough tier repeats the analysis on the four checked-in generated packages. With no shared mutable location, any interleaving of instances equals some sequential run.",
+		Trusted: []string{
+			"go/ssa of golang.org/x/tools v0.29.0 (SSA construction, generic instantiation)",
+			"the checker's abstract instantiation of the Jet templates (DESIGN.md 2.3) covers every template branch: one model production per helper-rule kind and arity",
+			"user action methods, the user's _Lexer and the simplelexer driver are outside lox's generated code and outside this claim",
+			"Go memory model: goroutines that share no written location do not race",
+		},
+		Assumptions: []string{"the taint abstraction is type/field keyed and flow-insensitive: it may over-approximate aliasing (reported as a violation), never under-approximate writes through derived references"},
+		Run: func(c *Ctx) {
+			ruleCONF12(c)
+			ruleCONF3(c)
+			ruleCONFFixture(c, c.Verif)
+		},
+		Thorough: func(c *Ctx) { ruleCONF4(c) },
+	})
 }
